@@ -214,7 +214,12 @@ func cleanPath(p, proto string) string {
 		p = "/" + p
 	}
 	if p != "" {
-		return path.Clean(p)
+		c := path.Clean(p)
+		// path.Clean drops the trailing slash that an empty, "." or ".." last segment leaves behind
+		if last := p[strings.LastIndexByte(p, '/')+1:]; (last == "" || last == "." || last == "..") && c != "/" {
+			c += "/"
+		}
+		return c
 	}
 	return ""
 }
